@@ -29,11 +29,11 @@ SCOPE = {
              "different TTC, tags and MITRE info per level (32 shapes); defense declared Enabled / Disabled / without "
              "TTC and optionally redeclared lower down; exist / notExist steps with one requirement out of 17 "
              "expressions (every operator); models of <=3 assets: every type vector, asset names from "
-             "{a, a:1, a:2, b, a:s} (all tuples) x 4 id patterns (automatic and explicit ids), defense values from "
+             "{a, a:1, a:2, b, a:s, a:7} (all tuples) x 5 id patterns (automatic and explicit ids), defense values from "
              "{unset, 0, 0.3, 1}, every model on <=2 assets over the two associations (4 link decompositions) and "
              "random ones on 3; afterwards AttackGraph.add_node with an explicit id that is in use, an explicit fresh "
-             "id and an automatic id; + 3000 seeded random combinations of all dimensions",
-    "thorough": "same dimensions, 60000 seeded random combinations, models of <=4 assets",
+             "id and an automatic id; + 15000 seeded random combinations of all dimensions",
+    "thorough": "same dimensions, 150000 seeded random combinations, models of <=4 assets",
 }
 EXHAUSTIVE = {"quick": False, "thorough": False}
 RULE = ("case = (language recipe, model recipe incl. names / ids / defense values, add_node flag); each dimension is "
@@ -65,8 +65,8 @@ REQ_A = [["f", "ds"], ["f", "down"], ["c", ["f", "down"], ["f", "ds"]], ["u", ["
          ["t", "down"], ["c", ["t", "up"], ["f", "ds"]], ["s", "B", ["f", "down"]], ["s", "C", ["s", "B", ["f", "up"]]],
          ["v", "v1"], ["c", ["f", "up"], ["v", "v1"]]]
 REQ_D = [["f", "as"], ["c", ["f", "as"], ["f", "down"]], ["s", "C", ["f", "as"]]]
-NAMES = ["a", "a:1", "a:2", "b", "a:s"]
-ID_PATTERNS = [[None, None, None], [3, 1, 2], [1, 2, None], [5, None, None]]
+NAMES = ["a", "a:1", "a:2", "b", "a:s", "a:7"]
+ID_PATTERNS = [[None, None, None], [3, 1, 2], [1, 2, None], [5, None, None], [None, None, 7]]
 DEF_VALUES = [None, 0.0, 0.3, 1.0]
 
 
@@ -144,13 +144,12 @@ def cases(tier, seed):
                     yield {"lang": lang, "model": mk_model(tv, names=list(names), ids=idp[:n], links=a_model(tv)),
                            "addnode": names[0] == "a"}
     # (3) requirement expressions x every small model (all decompositions) and random larger ones
-    big = list(G.models_random(L0, 3, 150 if tier == "quick" else 1500, rnd))
+    big = list(G.models_random(L0, 3, 400 if tier == "quick" else 2500, rnd))
     if tier != "quick": big += list(G.models_random(L0, 4, 800, rnd))
     for qa in range(len(REQ_A)):
         lang = make_lang(req_a=qa, req_d=qa % len(REQ_D))
         for (types, links, mode) in small_models + big:
             if not any(L0.is_sub(t, "A") for t in types): continue
-            if tier == "quick" and mode == "rnd" and rnd.random() < 0.5: continue
             yield {"lang": lang, "model": mk_model(types, links=links), "addnode": False}
     # (4) add_node with explicit ids after generation
     for fold in FOLDS[:8]:
@@ -158,7 +157,7 @@ def cases(tier, seed):
         for tv in tvs:
             yield {"lang": lang, "model": mk_model(tv, links=a_model(tv)), "addnode": True}
     # (5) random combinations of all dimensions
-    count = 3000 if tier == "quick" else 60000
+    count = 15000 if tier == "quick" else 150000
     nmax = 3 if tier == "quick" else 4
     for _ in range(count):
         lang = make_lang(fold=rnd.choice(FOLDS), dttc=rnd.choice(("en", "dis", None)), dredecl=rnd.choice(DREDECLS),
@@ -198,8 +197,8 @@ def run_case(recipe):
     r = CaseResult()
     seen = set()
     if real.build_error is not None:
-        r.check("C02.no-crash", False, real._stage, "building a valid model raised %r" % (real.build_error,),
-                "model-build:%s:%s" % (real._stage.split(".")[-1], type(real.build_error).__name__))
+        r.check("C02.no-crash", False, real._stage, "building the language / a valid model raised %r" % (real.build_error,),
+                "build:%s:%s" % (real._stage.split(".")[-1], type(real.build_error).__name__))
         return r
     objs = real.objs
     names = [str(a.name) for a in objs]
